@@ -33,9 +33,9 @@ MANIFEST = dict(
     '(C10.table_index), with the id manager\'s numbering each draw variable reads the series of its own type and two variables never share a column (own_series, distinct_columns); '
     'dispatch native -> user -> error, reserved names refused and no shadowing afterwards, wrong shape / unknown type refused at the first offending variable (generator_dispatch, '
     'reserved_refused, wrong_shape_refused, unknown_type_refused); the Monte-Carlo loop is the arithmetic mean over r of the integrand with every draw variable replaced by its own '
-    'series\' r-th draw (mc_mean, mc_own_series); the symbolic derivative of the formula family is the derivative, w.r.t. parameters and variables (derive_is_diff, derive_var_is_diff: '
+    'series\' r-th draw, end to end on the table produced by generate_draws (mc_mean, mc_own_series, mc_denotes_mean); the symbolic derivative of the formula family is the derivative, w.r.t. parameters and variables (derive_is_diff, derive_var_is_diff: '
     'HasDerivAt); a non-zero seed determines the generator state (seeded_deterministic); Gaussian closed forms over R from Mathlib: int phi = 1, int x phi = 0, int x^2 phi = 1, '
-    'int phi e^{ax} = e^{a^2/2} (integral_phi, integral_x_phi, integral_x2_phi, integral_phi_exp). Tie: real Database/BIOGEME/expressions on generated cases.',
+    'int phi e^{ax} = e^{a^2/2}, int (c0+c1 x+c2 x^2) phi e^{ax} = e^{a^2/2}(c0+c1 a+c2(1+a^2)) (integral_phi, integral_x_phi, integral_x2_phi, integral_phi_exp, integral_x_phi_exp, integral_x2_phi_exp, integral_poly_phi_exp). Tie: real Database/BIOGEME/expressions on generated cases.',
     design='DESIGN.md §5 C10',
     technique='Lean 4 theorems (core + Mathlib calculus / Gaussian measure) over an executable model of the draw table, dispatch, Monte-Carlo loop and derivative + differential correspondence',
     note='PARTIAL: the quadrature error of Integrate for general integrands is not proved (closed-form Gaussian family used as oracle, tolerance 1e-6); the distribution of native draws is C11\'s subject; engine operators modelled, not verified.',
@@ -572,7 +572,7 @@ def check_integrate(ctx, res, rng):
     exp_vals = []
     for r in rows:
         a = bval * r[0] if use_a else 0.0
-        # closed forms proved in Props/C10.lean (and their two a-derivatives): int phi e^{ax} (c0 + c1 x + c2 x^2) dx
+        # closed form proved in Props/C10.lean (integral_poly_phi_exp): int phi e^{ax} (c0 + c1 x + c2 x^2) dx
         exp_vals.append(math.exp(a * a / 2) * (c[0] + c[1] * a + c[2] * (1 + a * a)))
     if len(vals) != N or not all(abs(x - y) <= 1e-6 * max(1.0, abs(y)) for x, y in zip(vals, exp_vals)):
         res.violate('Integrate = integral over the real line of its argument (Gaussian closed form)', case, vals, exp_vals, where='Integrate')
@@ -676,11 +676,11 @@ def check_impl(ctx) -> Result:
     res = Result(rule=RULE, tolerance='draw table, refusals, seeds: exact; Monte-Carlo and Derive: rel 1e-11; Integrate vs closed forms: 1e-6; Derive vs finite differences: 1e-5')
     rng = ctx.rng
     try:
-        for _ in range(ctx.n(80, 1500)):
+        for _ in range(ctx.n(150, 5000)):
             guard(res, 'Database.generate_draws', check_table, ctx, res, rng)
             if len(res.violations) > 5:
                 break
-        for _ in range(ctx.n(40, 400)):
+        for _ in range(ctx.n(60, 1000)):
             guard(res, 'Database.set_random_number_generators / generate_draws', check_refusals, ctx, res, rng)
             if len(res.violations) > 8:
                 break
@@ -692,15 +692,15 @@ def check_impl(ctx) -> Result:
         for c in CORPUS_MC:
             guard(res, 'MonteCarlo', check_mc, ctx, res, c)
             res.tally('corpus')
-        for _ in range(ctx.n(120, 2500)):
+        for _ in range(ctx.n(300, 10000)):
             guard(res, 'MonteCarlo', check_mc, ctx, res, gen_mc_case(rng))
             if len(res.violations) > 10:
                 break
-        for _ in range(ctx.n(6, 60)):
+        for _ in range(ctx.n(8, 150)):
             guard(res, 'BIOGEME seed', check_seed, ctx, res, rng)
-        for _ in range(ctx.n(40, 600)):
+        for _ in range(ctx.n(80, 2000)):
             guard(res, 'Integrate', check_integrate, ctx, res, rng)
-        for _ in range(ctx.n(60, 1200)):
+        for _ in range(ctx.n(120, 4000)):
             guard(res, 'Derive', check_derive, ctx, res, rng)
     except EnginePoisoned:
         res.notes.append('run stopped after an engine exception (the engine keeps it for the rest of the process)')
